@@ -18,13 +18,13 @@ NEEDS = ["harness", "cli"]
 KINDS = ["complete", "partial", "multiallelic", "insufficient", "exact"]
 RULE = ("L1: histories of 2-200 records over 2-8 samples in 1-3 populations, records drawn from the five site kinds (complete, partially missing "
         "but projectable, multiallelic, insufficient, exactly sufficient) with small state spaces so that identical allele counts recur with "
-        "different totals, with and without projection; each step compared with a fresh-reader replica, and the accumulated spectrum with the "
+        "different totals, with and without projection; cohorts of 90-230 samples whose number of called samples rises and falls from record to record (more than 170 called chromosomes, projected down); histories with failing records (a non-diploid genotype in a selected sample) that the caller reads past; each step compared with a fresh-reader replica, and the accumulated spectrum with the "
         "sum of the replicas' contributions. C: spectrum(A||B) == spectrum(A)+spectrum(B) and permutation invariance (exact without projection, "
         "1e-9*R with). Non-trivial: history with >= 3 distinct site kinds and a repeated allele-count vector; distinct = digest(history, map, target). "
         "The evidence lists how often each ordered pair of kinds was observed.")
 ASSUMPTIONS = ["replica comparison is bit-exact: the same code on the same numbers must give the same bits",
                "the fresh reader is the real code too; absolute correctness of a single record is C01/C02's job"]
-FLOORS = {"quick": {"evaluations": 2000, "distinct_nontrivial": 800, "counts": {"L1_steps": 60000, "C_relations": 90}},
+FLOORS = {"quick": {"evaluations": 2000, "distinct_nontrivial": 800, "counts": {"L1_steps": 60000, "C_relations": 90, "L1_cohort_histories": 100, "L1_histories_with_failing_records": 200, "L1_failing_records_read_past": 200}},
           "thorough": {"evaluations": 150000, "distinct_nontrivial": 50000, "counts": {"L1_steps": 4000000, "C_relations": 2500}}}
 NSHARD = 32
 
@@ -36,6 +36,8 @@ def plan(tier, seed):
 
 def kind_of(codes, cols_by_pop, project):
     """Site kind of a record (codes per sample) for the given map / target."""
+    if any(codes[c] == "5" for cols in cols_by_pop for c in cols):
+        return "failing"
     t = []
     multi = False
     missing = False
@@ -124,12 +126,47 @@ def check_L1_batch(S, p, idxs):
                 pops.append(q)
         cols_by_pop = [[samples.index(s) for s, q in smap if q == lab] for lab in pops]
         length = rng.choice([2, 3, 5, 10, 30, 80, 200])
-        hist = gen_history(rng, ns, cols_by_pop, project, length)
-        cases.append({"name": name, "i": i, "samples": samples, "map": smap, "project": project, "hist": hist, "cols": cols_by_pop})
+        if i % 12 == 7:
+            # a cohort: more than 170 called chromosomes in a population, the number of called samples going up and down from record
+            # to record, projected down (tables that depend on the sample size must not survive from one site to the next)
+            ns = rng.randint(90, 230)
+            samples = ["s%d" % j for j in range(ns)]
+            npops_ = rng.choice([1, 1, 2])
+            cut = ns if npops_ == 1 else rng.randint(3, 10)
+            smap = [(s_, None if npops_ == 1 else ("A" if j < ns - cut else "B")) for j, s_ in enumerate(samples)]
+            cols_by_pop = [list(range(ns))] if npops_ == 1 else [list(range(ns - cut)), list(range(ns - cut, ns))]
+            project = [rng.choice([100, 150, 170, 171, 172, 2 * len(cols) - 40, len(cols)]) for cols in cols_by_pop]
+            project = [max(0, min(2 * len(cols), m)) for m, cols in zip(project, cols_by_pop)]
+            length = rng.choice([4, 8, 14])
+            hist = []
+            for _ in range(length):
+                pm = rng.choice([0.0, 0.02, 0.1, 0.2, 0.3])
+                pa = rng.choice([0.05, 0.3, 0.5])
+                hist.append("".join("3" if rng.random() < pm else str((rng.random() < pa) + (rng.random() < pa)) for _ in range(ns)))
+            if rng.random() < 0.5:
+                hist.sort(key=lambda r_: r_.count("3"), reverse=True)      # fewest called samples first, then more and more
+            S.count("L1_cohort_histories")
+        else:
+            hist = gen_history(rng, ns, cols_by_pop, project, length)
+        after_error = False
+        if i % 5 == 3 and length >= 3:
+            # a library caller may skip a record that failed and read on: put non-diploid genotypes of selected samples into the history
+            sel_cols = [c_ for cols in cols_by_pop for c_ in cols]
+            for _ in range(rng.randint(1, 3)):
+                k_ = rng.randrange(len(hist) - 1)
+                # the failing record is a copy of a neighbour with one selected genotype turned non-diploid (partial state left behind?)
+                src_ = list(hist[rng.choice([k_, min(len(hist) - 1, k_ + 1)])])
+                src_[rng.choice(sel_cols)] = "5"
+                hist.insert(k_ + 1, "".join(src_))
+            after_error = True
+            S.count("L1_histories_with_failing_records")
+        cases.append({"name": name, "i": i, "samples": samples, "map": smap, "project": project, "hist": hist, "cols": cols_by_pop, "after_error": after_error})
     reqs = []
     for c in cases:
         base = {"op": "site_hist", "samples": c["samples"], "map": E.map_json(c["map"]),
                 "project": None if c["project"] is None else [m + 1 for m in c["project"]], "records": c["hist"]}
+        if c.get("after_error"):
+            base["after_error"] = "continue"
         reqs.append(dict(base, fresh=False))
         reqs.append(dict(base, fresh=True))
     res = harness.run_all(reqs)
@@ -150,6 +187,9 @@ def check_L1_batch(S, p, idxs):
         for step, (el, ef) in enumerate(zip(live["events"], fresh["events"])):
             S.count("L1_steps")
             same = el["k"] == ef["k"] and el.get("idx") == ef.get("idx") and el.get("v") == ef.get("v") and el.get("skipped") == ef.get("skipped")
+            if el["k"] == "E" and ef["k"] == "E":
+                same = True
+                S.count("L1_failing_records_read_past")
             if not same:
                 bad = (step, el, ef)
                 break
